@@ -296,7 +296,20 @@ static int recv_events(m_ctx_t *c, int timeout) {
                         msg_consumed = true;
                     } else {
                         M_INFO("PoisonPilling '%s'.\n", mod->name);
-                        stop(mod, true);
+                        /*
+                         * Messages sent before the pill may still be waiting in the batch:
+                         * hand them over first, the pill stops the module only after them.
+                         */
+                        M_MEM_LOCK(mod, {
+                            if (m_queue_len(mod->batch.events) > 0) {
+                                m_queue_t *evts = mod->batch.events;
+                                mod->batch.events = m_queue_new(mem_dtor);
+                                call_pubsub_cb(mod, evts);
+                            }
+                            if (m_mod_is(mod, M_MOD_RUNNING | M_MOD_PAUSED)) {
+                                stop(mod, true);
+                            }
+                        });
                     }
                 }
             }
